@@ -355,6 +355,84 @@ def check_comment_state(ctx, out, rule="C12.rescan"):
     out.inst(rule, n, 1, [b.id for b in cands], note="tag iterators: no Some(..) is returned in a state whose current comment is known to be cleared")
 
 
+def check_noskip(ctx, out, rule="C12.noskip"):
+    """The file parser returns without parsing a file only on the "no grammar for this file name" branch: no other
+    path (a textual pre-filter, a size limit, ...) reaches a successful return without `BlocksParser::parse`."""
+    fp = file_parser(ctx)
+    if fp is None:
+        out.inst(rule, 0, 1, note="file parser not found")
+        return
+    cfg = cfg_of(fp)
+    parse_bbs = {bi for bi, t in fp.calls() if callee_matches(t, r"BlocksParser::parse$")}
+    lookup = [(bi, t) for bi, t in fp.calls() if ctx.facts.body(t.get("res") or "") is not None and re.match(r"std::option::Option<&.*dyn blockwatch::block_parser::BlocksParser", t.get("dest_ty") or "")]
+    none_arms = set()
+    for bi, t in lookup:
+        sw = cfg.succ[bi][0]
+        tt = fp.blocks[sw]["term"]
+        if tt and tt["k"] == "switch":
+            arms = util.switch_arms(fp, sw)
+            none_arms.add(arms.get(0, arms["otherwise"]))
+    if not lookup:
+        out.viol(rule, rule + "|lookup", ctx.where(fp), "grammar lookup not found in the file parser")
+    else:
+        eb = err_blocks(ctx, fp)
+        r = cfg.reach(0, avoid=parse_bbs | eb | none_arms)
+        if any(x in cfg.exits for x in r):
+            out.viol(rule, rule + "|skip-path", ctx.where(fp),
+                     "the file parser can return successfully without parsing the file on a path that is not the 'no grammar for this file name' branch: the blocks of such a file - and its unbalanced tags - would go unnoticed")
+            out.inst(rule, 0, 1)
+        else:
+            out.inst(rule, 1, 1, ["%s: Ok without parse only via lookup==None" % fp.id])
+
+
+def check_candidates(ctx, out, rule="C12.candidates"):
+    """Every `<` the tag scanner finds is offered to the tag grammar before the scanner moves on to the next one:
+    no way round the scan loop avoids every application of a tag parser. (A pre-check that sends some candidates
+    straight to the next `<` has to agree with the grammar on every spelling the grammar accepts; when it does
+    not, an end tag is passed over, its block's start is reported as unclosed - or, alone, nothing is reported.)"""
+    from engine.core import on_any_view
+    cands = [b for b in ctx.reachable_bodies()
+             if b.promoted is None and "tag_parser" in b.id and b.kind in ("Fn", "AssocFn")
+             and b.local_ty(0).startswith("std::result::Result<std::option::Option<blockwatch::tag_parser::BlockTag")]
+    if len(cands) != 1:
+        out.inst(rule, 0, 1, note="tag scanner (fn .. -> Result<Option<BlockTag>>) not found")
+        return
+    b0 = cands[0]
+
+    def is_parse(t):
+        return callee_matches(t, r"^winnow::.*::parse_(peek|next)$|^winnow::Parser::parse$")
+
+    def on(v, o):
+        c = cfg_of(v)
+        P = {bi for bi, t in v.calls() if is_parse(t)}
+        loops = [(h, bl) for h, bl in c.loops().items() if P & bl]
+        if not P or not loops:
+            o.inst(rule, 0, 1, note="no tag parser application inside a loop in this view")
+            return
+        h, bl = min(loops, key=lambda x: len(x[1]))
+        seen = set()
+        stack = [y for y in c.succ[h] if y in bl and y not in P]
+        back = h in stack
+        while stack and not back:
+            x = stack.pop()
+            if x in seen:
+                continue
+            seen.add(x)
+            for y in c.succ[x]:
+                if y == h:
+                    back = True
+                    break
+                if y in bl and y not in P and y not in seen:
+                    stack.append(y)
+        if back:
+            o.viol(rule, rule + "|bypass", ctx.where(v, v.blocks[h]["term"].get("span")),
+                   "the tag scanner can go on to the next `<` without offering the current one to a tag parser: a tag spelled in a way the skipping test does not expect (the grammar allows blanks inside `< /block >`) is passed over, and an end tag without an open block is then accepted silently")
+            o.inst(rule, 0, 1)
+        else:
+            o.inst(rule, 1, 1, ["%s: every way round the scan loop applies one of %d tag parser calls" % (b0.id.split("::")[-2][:40], len(P))])
+    on_any_view(out, [b0, ctx.inl(b0, tag="all"), ctx.inl(b0, skip=ctx.domain_api, tag="domain", sugar=True)], on)
+
+
 def check_scanner_end(ctx, out, rule="C12.scan"):
     """The tag scanner gives up only at the end: `Ok(None)` iff the cursor is at / past the text's length (the
     plain `>=`, no slack) or no `<` is left."""
@@ -530,27 +608,7 @@ def run(ctx, out, tier):
             m += 1
         else:
             out.viol("C12.through", "C12.through|no-context", ctx.where(fp), "the result of BlocksParser::parse is not given a context naming the file")
-        # C12.noskip: return without parsing only on "no grammar"
-        parse_bbs = {bi for bi, t in fp.calls() if callee_matches(t, r"BlocksParser::parse$")}
-        lookup = [(bi, t) for bi, t in fp.calls() if ctx.facts.body(t.get("res") or "") is not None and re.match(r"std::option::Option<&.*dyn blockwatch::block_parser::BlocksParser", t.get("dest_ty") or "")]
-        none_arms = set()
-        for bi, t in lookup:
-            sw = cfg.succ[bi][0]
-            tt = fp.blocks[sw]["term"]
-            if tt and tt["k"] == "switch":
-                arms = util.switch_arms(fp, sw)
-                none_arms.add(arms.get(0, arms["otherwise"]))
-        if not lookup:
-            out.viol("C12.noskip", "C12.noskip|lookup", ctx.where(fp), "grammar lookup not found in the file parser")
-        else:
-            eb = err_blocks(ctx, fp)
-            r = cfg.reach(0, avoid=parse_bbs | eb | none_arms)
-            if any(x in cfg.exits for x in r):
-                out.viol("C12.noskip", "C12.noskip|skip-path", ctx.where(fp),
-                         "the file parser can return successfully without parsing the file on a path that is not the 'no grammar for this file name' branch: unbalanced tags in such a file would go unreported")
-                out.inst("C12.noskip", 0, 1)
-            else:
-                out.inst("C12.noskip", 1, 1, ["%s: Ok without parse only via lookup==None" % fp.id])
+        check_noskip(ctx, out, "C12.noskip")
     out.inst("C12.through", m, len(impls) + 1 if impls else 3, ["%d BlocksParser::parse impls -> pairing fn; parse(..).context(file)?" % len(impls)])
 
     check_scanner_end(ctx, out, "C12.scan")
@@ -572,6 +630,7 @@ def run(ctx, out, tier):
     # the scanner resumes right behind the tag it consumed (a tag after it is neither skipped nor read twice)
     from rules.C10 import check_tagoffset
     check_tagoffset(ctx, out, rule="C12.tagoffset")
+    check_candidates(ctx, out)
     return meta()
 
 
